@@ -32,7 +32,8 @@ Inductive stmt :=
 | Alias (x y : string)              (* x = y        : x names the object y names *)
 | Default (x : string) (s : stmt)   (* if x is None: s *)
 | Write (x : string) (e : vx)       (* in place: x[:] = e, x.assign(e), x += .., x.lincomb(..), op(.., out=x) *)
-| Callback (x : string).            (* callback(x) *)
+| Callback (x : string)             (* callback(x) *)
+| ReturnIfNormSqLt (x : string) (tol : sx).   (* d = -x.norm() ** 2; if np.abs(d) < tol: return *)
 
 (* skeleton of the main loop body of the solvers that loop over a list of
    operators: plain statements and inner loops  for i in range(len(ops))
